@@ -74,16 +74,16 @@ Proof. induction a as [|x r IH]; intros b P.
 (* ---------- the monitor split by event kind ---------- *)
 (* the conjuncts the model speaks about: everything except the C17 readiness observation (its lower bound m0 is C17's clause) *)
 Definition core (e : oevent) : bool := match e with OReady _ _ _ _ => false | _ => true end.
-Fixpoint spec_run_sel (sel : oevent -> bool) (cmds : list logop) (lg : list N) (sn : list snode) (es : list oevent) : bool :=
+Fixpoint spec_run_sel (sel : oevent -> bool) (cmds : list logop) (lg : list N) (ak : list (N * nat)) (sn : list snode) (es : list oevent) : bool :=
   match es with
   | [] => true
-  | e :: r => let '(lg', sn', ok) := spec_step cmds lg sn e in (if sel e then ok else true) && spec_run_sel sel cmds lg' sn' r
+  | e :: r => let '(lg', sn', ok) := spec_step cmds lg ak sn e in (if sel e then ok else true) && spec_run_sel sel cmds lg' (ack_step lg ak e) sn' r
   end.
-Lemma spec_run_split cmds : forall es lg sn,
-  spec_run cmds lg sn es = spec_run_sel core cmds lg sn es && spec_run_sel (fun e => negb (core e)) cmds lg sn es.
-Proof. induction es as [|e r IH]; intros lg sn; [reflexivity|]. cbn [spec_run spec_run_sel].
-  destruct (spec_step cmds lg sn e) as [[lg' sn'] ok]. rewrite IH.
-  destruct (core e), ok, (spec_run_sel core cmds lg' sn' r), (spec_run_sel (fun e0 => negb (core e0)) cmds lg' sn' r); reflexivity. Qed.
+Lemma spec_run_split cmds : forall es lg ak sn,
+  spec_run cmds lg ak sn es = spec_run_sel core cmds lg ak sn es && spec_run_sel (fun e => negb (core e)) cmds lg ak sn es.
+Proof. induction es as [|e r IH]; intros lg ak sn; [reflexivity|]. cbn [spec_run spec_run_sel].
+  destruct (spec_step cmds lg ak sn e) as [[lg' sn'] ok]. rewrite IH.
+  destruct (core e), ok, (spec_run_sel core cmds lg' (ack_step lg ak e) sn' r), (spec_run_sel (fun e0 => negb (core e0)) cmds lg' (ack_step lg ak e) sn' r); reflexivity. Qed.
 
 (* ---------- guards ---------- *)
 (* what the harness guarantees about the FORM of a trace (no reference to the model):
@@ -109,12 +109,12 @@ Definition guard_step (k : nat) (cmds : list logop) (cl : cluster) (e : oevent) 
   | ORecovered n _ _ => (nn n <? k)%nat && match rest with [] => true | _ => false end
   | _ => true
   end.
-Fixpoint guard_run (k : nat) (cmds : list logop) (lg : list N) (cl : cluster) (es : list oevent) : bool :=
+Fixpoint guard_run (k : nat) (cmds : list logop) (lg : list N) (ak : list (N * nat)) (cl : cluster) (es : list oevent) : bool :=
   match es with
   | [] => true
-  | e :: r => guard_step k cmds cl e r && guard_run k cmds (log_step cmds lg e) (fst (model_step cmds lg cl e)) r
+  | e :: r => guard_step k cmds cl e r && guard_run k cmds (log_step cmds lg e) (ack_step lg ak e) (fst (model_step cmds lg ak cl e)) r
   end.
-Definition trace_guard (k : N) (cmds : list logop) (es : list oevent) : bool := guard_run (nn k) cmds [] (init (nn k)) es.
+Definition trace_guard (k : N) (cmds : list logop) (es : list oevent) : bool := guard_run (nn k) cmds [] [] (init (nn k)) es.
 
 (* the premise of the property and the absence of the S19 shape make every command a plain decodable pin / unpin *)
 Definition cmds_ok (cmds : list logop) : Prop := forall op, In op cmds -> in_premise op = true /\ clean_op op = true.
@@ -575,10 +575,10 @@ Proof. destruct o; [eauto|discriminate]. Qed.
 
 (* the model accepts the event, the recogniser does not flag it: the monitor's conjunct holds (C17's OReady excepted) and the
    invariant goes on - except past the R3 observation, which ends its trace *)
-Lemma sim_step k cl lg sn pend cnt late e rest cl' lg' sn' ok pend' cnt' late' :
+Lemma sim_step k cl lg ak sn pend cnt late e rest cl' lg' sn' ok pend' cnt' late' :
   inv2 cl lg sn pend cnt late -> length (nodes cl) = k -> wf_step k cmds e rest = true ->
-  model_step cmds lg cl e = (cl', true) ->
-  spec_step cmds lg sn e = (lg', sn', ok) ->
+  model_step cmds lg ak cl e = (cl', true) ->
+  spec_step cmds lg ak sn e = (lg', sn', ok) ->
   late_step pend cnt late e = (pend', cnt', late', false) ->
   (core e = true -> ok = true) /\
   (rest = [] \/ (inv2 cl' lg' sn' pend' cnt' late' /\ lg' = log_step cmds lg e /\ length (nodes cl') = k)).
@@ -637,71 +637,76 @@ Proof. intros [I R] Hk Hw Em Es El.
   - (* OReady *) split_model Em Eok. injection Es as <- <- <-. injection El as <- <- <-.
     split; [discriminate|]. right. split; [split; [exact I|exact R]|split; [reflexivity|exact Hk]].
   - (* OStopped *) split_model Em Eok. injection Es as <- <- <-. injection El as <- <- <-.
-    split; [reflexivity|]. right. split; [split; [exact I|exact R]|split; [reflexivity|exact Hk]]. Qed.
+    split; [intros _; now rewrite (pi_labels _ _ _ (inv_get cmds cl lg sn (nn n) I))|]. right. split; [split; [exact I|exact R]|split; [reflexivity|exact Hk]]. Qed.
 
 (* ---------- the whole trace ---------- *)
-Lemma sim_run k : forall es cl lg sn pend cnt late, inv2 cl lg sn pend cnt late -> length (nodes cl) = k ->
-  wf_run k cmds es = true -> model_run cmds lg cl es = true -> late_restore pend cnt late es = false ->
-  spec_run_sel core cmds lg sn es = true.
-Proof. induction es as [|e r IH]; intros cl lg sn pend cnt late I Hk Hw Hm Hl; [reflexivity|].
+Lemma sim_run k : forall es cl lg ak sn pend cnt late, inv2 cl lg sn pend cnt late -> length (nodes cl) = k ->
+  wf_run k cmds es = true -> model_run cmds lg ak cl es = true -> late_restore pend cnt late es = false ->
+  spec_run_sel core cmds lg ak sn es = true.
+Proof. induction es as [|e r IH]; intros cl lg ak sn pend cnt late I Hk Hw Hm Hl; [reflexivity|].
   cbn [wf_run] in Hw. apply andb_true_iff in Hw. destruct Hw as [Hw1 Hw2].
-  cbn [model_run] in Hm. destruct (model_step cmds lg cl e) as [cl' ok] eqn:Em. apply andb_true_iff in Hm. destruct Hm as [-> Hm].
+  cbn [model_run] in Hm. destruct (model_step cmds lg ak cl e) as [cl' ok] eqn:Em. apply andb_true_iff in Hm. destruct Hm as [-> Hm].
   cbn [late_restore] in Hl. destruct (late_step pend cnt late e) as [[[pend' cnt'] late'] f] eqn:El. destruct f; [discriminate|].
-  cbn [spec_run_sel]. destruct (spec_step cmds lg sn e) as [[lg' sn'] ok'] eqn:Es.
-  destruct (sim_step k cl lg sn pend cnt late e r cl' lg' sn' ok' pend' cnt' late' I Hk Hw1 Em Es El) as [Hc [->|[I' [Elg Hk']]]].
+  cbn [spec_run_sel]. destruct (spec_step cmds lg ak sn e) as [[lg' sn'] ok'] eqn:Es.
+  destruct (sim_step k cl lg ak sn pend cnt late e r cl' lg' sn' ok' pend' cnt' late' I Hk Hw1 Em Es El) as [Hc [->|[I' [Elg Hk']]]].
   - cbn [spec_run_sel]. rewrite andb_true_r. destruct (core e); [now apply Hc|reflexivity].
   - assert (X : (if core e then ok' else true) = true) by (destruct (core e); [now apply Hc|reflexivity]). rewrite X. cbn [andb].
     rewrite <- Elg in Hm. eapply IH; eauto. Qed.
 
 (* the state the model is in after a prefix of the trace *)
-Fixpoint model_after (lg : list N) (cl : cluster) (pre : list oevent) : cluster * list N :=
+Fixpoint model_after (lg : list N) (ak : list (N * nat)) (cl : cluster) (pre : list oevent) : cluster * list N :=
   match pre with
   | [] => (cl, lg)
-  | e :: r => model_after (log_step cmds lg e) (fst (model_step cmds lg cl e)) r
+  | e :: r => model_after (log_step cmds lg e) (ack_step lg ak e) (fst (model_step cmds lg ak cl e)) r
+  end.
+Fixpoint ack_after (lg : list N) (ak : list (N * nat)) (pre : list oevent) : list (N * nat) :=
+  match pre with
+  | [] => ak
+  | e :: r => ack_after (log_step cmds lg e) (ack_step lg ak e) r
   end.
 
 Lemma wf_run_app_nonnil k : forall pre rest, rest <> [] -> wf_run k cmds (pre ++ rest) = true ->
   forall e r, pre = e :: r -> r ++ rest <> [].
 Proof. intros pre rest Hr _ e r _ E. apply app_eq_nil in E. tauto. Qed.
 
-Lemma sim_prefix k : forall pre rest cl lg sn pend cnt late, inv2 cl lg sn pend cnt late -> length (nodes cl) = k ->
-  rest <> [] -> wf_run k cmds (pre ++ rest) = true -> model_run cmds lg cl (pre ++ rest) = true ->
+Lemma sim_prefix k : forall pre rest cl lg ak sn pend cnt late, inv2 cl lg sn pend cnt late -> length (nodes cl) = k ->
+  rest <> [] -> wf_run k cmds (pre ++ rest) = true -> model_run cmds lg ak cl (pre ++ rest) = true ->
   late_restore pend cnt late (pre ++ rest) = false ->
-  exists sn' pend' cnt' late', inv2 (fst (model_after lg cl pre)) (snd (model_after lg cl pre)) sn' pend' cnt' late' /\
-    model_run cmds (snd (model_after lg cl pre)) (fst (model_after lg cl pre)) rest = true.
-Proof. induction pre as [|e r IH]; intros rest cl lg sn pend cnt late I Hk Hr Hw Hm Hl.
-  - cbn [model_after fst snd app] in *. eauto 6.
+  exists sn' pend' cnt' late', inv2 (fst (model_after lg ak cl pre)) (snd (model_after lg ak cl pre)) sn' pend' cnt' late' /\
+    model_run cmds (snd (model_after lg ak cl pre)) (ack_after lg ak pre) (fst (model_after lg ak cl pre)) rest = true.
+Proof. induction pre as [|e r IH]; intros rest cl lg ak sn pend cnt late I Hk Hr Hw Hm Hl.
+  - cbn [model_after ack_after fst snd app] in *. eauto 6.
   - cbn [app] in Hw, Hm, Hl. cbn [wf_run] in Hw. apply andb_true_iff in Hw. destruct Hw as [Hw1 Hw2].
-    cbn [model_run] in Hm. destruct (model_step cmds lg cl e) as [cl' ok] eqn:Em. apply andb_true_iff in Hm. destruct Hm as [-> Hm].
+    cbn [model_run] in Hm. destruct (model_step cmds lg ak cl e) as [cl' ok] eqn:Em. apply andb_true_iff in Hm. destruct Hm as [-> Hm].
     cbn [late_restore] in Hl. destruct (late_step pend cnt late e) as [[[pend' cnt'] late'] f] eqn:El. destruct f; [discriminate|].
-    destruct (spec_step cmds lg sn e) as [[lg' sn'] ok'] eqn:Es.
-    destruct (sim_step k cl lg sn pend cnt late e (r ++ rest) cl' lg' sn' ok' pend' cnt' late' I Hk Hw1 Em Es El) as [_ [E|[I' [Elg Hk']]]].
+    destruct (spec_step cmds lg ak sn e) as [[lg' sn'] ok'] eqn:Es.
+    destruct (sim_step k cl lg ak sn pend cnt late e (r ++ rest) cl' lg' sn' ok' pend' cnt' late' I Hk Hw1 Em Es El) as [_ [E|[I' [Elg Hk']]]].
     + apply app_eq_nil in E. tauto.
-    + cbn [model_after]. rewrite Em. cbn [fst]. rewrite <- Elg. eapply IH; eauto. now rewrite Elg. Qed.
+    + cbn [model_after ack_after]. rewrite Em. cbn [fst]. rewrite <- Elg. eapply IH; eauto. now rewrite Elg. Qed.
 End Sim.
 
 (* completeness w.r.t. the model, for every number of replicas, every command table and every trace *)
 Lemma model_passes_monitor_l k cmds es :
   forallb in_premise cmds = true -> tag_of cmds es = 0 -> trace_wf k cmds es = true ->
-  model_eqb k cmds es = true -> spec_run_sel core cmds [] (repeat snode0 (nn k)) es = true.
+  model_eqb k cmds es = true -> spec_run_sel core cmds [] [] (repeat snode0 (nn k)) es = true.
 Proof. intros Hp Ht Hw Hm. destruct (tag_of_0 _ _ Ht) as [Hs Hl].
-  apply (sim_run cmds (cmds_ok_of cmds Hp Hs) (nn k) es (init (nn k)) [] (repeat snode0 (nn k)) [] [] []); auto.
+  apply (sim_run cmds (cmds_ok_of cmds Hp Hs) (nn k) es (init (nn k)) [] [] (repeat snode0 (nn k)) [] [] []); auto.
   - split; [apply inv_init|apply rec_init].
   - cbn [init nodes]. apply repeat_length. Qed.
 
 (* with the conjunct of C17, the whole monitor: a trace the model accepts fails the monitor only with a tag *)
 Lemma model_passes_spec_okb_l k cmds es :
   tag_of cmds es = 0 -> trace_wf k cmds es = true -> model_eqb k cmds es = true ->
-  spec_run_sel (fun e => negb (core e)) cmds [] (repeat snode0 (nn k)) es = true -> stop_run stopst0 es = true ->
+  spec_run_sel (fun e => negb (core e)) cmds [] [] (repeat snode0 (nn k)) es = true ->
   spec_okb k cmds es = true.
-Proof. intros Ht Hw Hm Ha Hs. unfold spec_okb. destruct (forallb in_premise cmds) eqn:Hp; [|reflexivity].
-  rewrite spec_run_split, Ha, Hs, (model_passes_monitor_l k cmds es Hp Ht Hw Hm). reflexivity. Qed.
+Proof. intros Ht Hw Hm Ha. unfold spec_okb. destruct (forallb in_premise cmds) eqn:Hp; [|reflexivity].
+  rewrite spec_run_split, Ha, (model_passes_monitor_l k cmds es Hp Ht Hw Hm). reflexivity. Qed.
 
 Lemma no_untagged_failure_l k cmds es :
   trace_wf k cmds es = true -> model_eqb k cmds es = true ->
-  spec_run_sel (fun e => negb (core e)) cmds [] (repeat snode0 (nn k)) es = true -> stop_run stopst0 es = true ->
+  spec_run_sel (fun e => negb (core e)) cmds [] [] (repeat snode0 (nn k)) es = true ->
   spec_okb k cmds es = false -> tag_of cmds es <> 0.
-Proof. intros Hw Hm Ha Hs Hf Ht. rewrite (model_passes_spec_okb_l k cmds es Ht Hw Hm Ha Hs) in Hf. discriminate. Qed.
+Proof. intros Hw Hm Ha Hf Ht. rewrite (model_passes_spec_okb_l k cmds es Ht Hw Hm Ha) in Hf. discriminate. Qed.
 
 (* ---------- the atomic guard of the theorems implies that the recogniser is silent ---------- *)
 Lemma pending_apply_entry op nd : pending (apply_entry op nd) = pending nd.
@@ -740,12 +745,12 @@ Proof. apply N2Nat.inj. Qed.
 Lemma aget_touch_true n k pend : aget k (touch n pend) = Some true -> k = n \/ aget k pend = Some true.
 Proof. destruct (N.eq_dec k n) as [->|Hne]; [now left|]. rewrite aget_touch_other by exact Hne. now right. Qed.
 
-Lemma atomic_not_late_run cmds k : forall es lg cl pend cnt,
+Lemma atomic_not_late_run cmds k : forall es lg ak cl pend cnt,
   (forall n, aget n pend = Some true -> pending (getn (nn n) cl) = None) ->
-  guard_run k cmds lg cl es = true -> model_run cmds lg cl es = true -> late_restore pend cnt [] es = false.
-Proof. induction es as [|e r IH]; intros lg cl pend cnt J Hg Hm; [reflexivity|].
+  guard_run k cmds lg ak cl es = true -> model_run cmds lg ak cl es = true -> late_restore pend cnt [] es = false.
+Proof. induction es as [|e r IH]; intros lg ak cl pend cnt J Hg Hm; [reflexivity|].
   cbn [guard_run] in Hg. apply andb_true_iff in Hg. destruct Hg as [Hg1 Hg2].
-  cbn [model_run] in Hm. destruct (model_step cmds lg cl e) as [cl' ok] eqn:Em. apply andb_true_iff in Hm. destruct Hm as [-> Hm].
+  cbn [model_run] in Hm. destruct (model_step cmds lg ak cl e) as [cl' ok] eqn:Em. apply andb_true_iff in Hm. destruct Hm as [-> Hm].
   cbn [fst] in Hg2. cbn [late_restore].
   destruct e as [c|n j|n j|n okk|n|n src kk lbl|n|c n|n o|n cs|n l|n m0 o|n m0 q o|n];
     unfold model_step in Em; cbv zeta in Em; cbn [late_step guard_step] in *.
@@ -783,18 +788,18 @@ Proof. induction es as [|e r IH]; intros lg cl pend cnt J Hg Hm; [reflexivity|].
   - (* OStopped *) split_model Em Ha. eapply IH; [|exact Hg2|exact Hm]; exact J. Qed.
 
 Lemma atomic_not_late_l k cmds es : trace_guard k cmds es = true -> model_eqb k cmds es = true -> late_restore [] [] [] es = false.
-Proof. intros Hg Hm. apply (atomic_not_late_run cmds (nn k) es [] (init (nn k))); auto. intros n H. discriminate. Qed.
+Proof. intros Hg Hm. apply (atomic_not_late_run cmds (nn k) es [] [] (init (nn k))); auto. intros n H. discriminate. Qed.
 
-Lemma guard_wf_run cmds k : forall es lg cl, guard_run k cmds lg cl es = true -> wf_run k cmds es = true.
-Proof. induction es as [|e r IH]; intros lg cl H; [reflexivity|]. cbn [guard_run] in H. apply andb_true_iff in H. destruct H as [H1 H2].
-  cbn [wf_run]. rewrite (IH _ _ H2), andb_true_r. destruct e; cbn [guard_step wf_step] in *; auto. Qed.
+Lemma guard_wf_run cmds k : forall es lg ak cl, guard_run k cmds lg ak cl es = true -> wf_run k cmds es = true.
+Proof. induction es as [|e r IH]; intros lg ak cl H; [reflexivity|]. cbn [guard_run] in H. apply andb_true_iff in H. destruct H as [H1 H2].
+  cbn [wf_run]. rewrite (IH _ _ _ H2), andb_true_r. destruct e; cbn [guard_step wf_step] in *; auto. Qed.
 Lemma guard_wf_l k cmds es : trace_guard k cmds es = true -> trace_wf k cmds es = true.
 Proof. apply guard_wf_run. Qed.
 
 (* the statement under the atomic guard of the theorems (no reference to the recogniser) *)
 Lemma model_passes_monitor_atomic_l k cmds es :
   forallb in_premise cmds = true -> is_S19 cmds = false -> trace_guard k cmds es = true ->
-  model_eqb k cmds es = true -> spec_run_sel core cmds [] (repeat snode0 (nn k)) es = true.
+  model_eqb k cmds es = true -> spec_run_sel core cmds [] [] (repeat snode0 (nn k)) es = true.
 Proof. intros Hp Hs Hg Hm. apply model_passes_monitor_l; auto using guard_wf_l.
   unfold tag_of. now rewrite Hs, (atomic_not_late_l k cmds es Hg Hm). Qed.
 
@@ -806,8 +811,8 @@ Proof. destruct ev as [op|n|n|n|n src k|n]; intros H; try discriminate; cbn [ste
   - destruct (nth_error (snaps (getn src cl)) k); reflexivity. Qed.
 Lemma fold_apply_log n : forall m cl, log (fold_left step (repeat (MApply n) m) cl) = log cl.
 Proof. induction m as [|m IH]; intros cl; [reflexivity|]. cbn [repeat fold_left]. rewrite IH. now apply step_log_same. Qed.
-Lemma model_step_log cmds lg cl e : log cl = map (cmd_of cmds) lg ->
-  log (fst (model_step cmds lg cl e)) = map (cmd_of cmds) (log_step cmds lg e).
+Lemma model_step_log cmds lg ak cl e : log cl = map (cmd_of cmds) lg ->
+  log (fst (model_step cmds lg ak cl e)) = map (cmd_of cmds) (log_step cmds lg e).
 Proof. intros H. destruct e as [c|n j|n j|n okk|n|n src kk lbl|n|c n|n o|n cs|n l|n m0 o|n m0 q o|n];
     unfold model_step; cbv zeta; cbn [fst log_step]; auto; try (rewrite step_log_same; [exact H|reflexivity]).
   - cbn [step]. destruct (accepts (cmd_of cmds c)); [|exact H]. cbn [log]. now rewrite map_app, H.
@@ -816,14 +821,14 @@ Proof. intros H. destruct e as [c|n j|n j|n okk|n|n src kk lbl|n|c n|n o|n cs|n 
       rewrite fold_apply_log, step_log_same; [exact H|reflexivity].
     + rewrite step_log_same; [exact H|reflexivity]. Qed.
 
-Lemma model_after_log cmds : forall pre lg cl, log cl = map (cmd_of cmds) lg ->
-  log (fst (model_after cmds lg cl pre)) = map (cmd_of cmds) (snd (model_after cmds lg cl pre)).
-Proof. induction pre as [|e r IH]; intros lg cl H; [exact H|]. cbn [model_after]. apply IH. now apply model_step_log. Qed.
+Lemma model_after_log cmds : forall pre lg ak cl, log cl = map (cmd_of cmds) lg ->
+  log (fst (model_after cmds lg ak cl pre)) = map (cmd_of cmds) (snd (model_after cmds lg ak cl pre)).
+Proof. induction pre as [|e r IH]; intros lg ak cl H; [exact H|]. cbn [model_after]. apply IH. now apply model_step_log. Qed.
 
-Lemma model_run_app cmds : forall pre rest lg cl, model_run cmds lg cl (pre ++ rest) = true ->
-  model_run cmds (snd (model_after cmds lg cl pre)) (fst (model_after cmds lg cl pre)) rest = true.
-Proof. induction pre as [|e r IH]; intros rest lg cl H; [exact H|]. cbn [app model_run] in H. cbn [model_after].
-  destruct (model_step cmds lg cl e) as [cl' ok]. apply andb_true_iff in H. destruct H as [_ H]. cbn [fst]. now apply IH. Qed.
+Lemma model_run_app cmds : forall pre rest lg ak cl, model_run cmds lg ak cl (pre ++ rest) = true ->
+  model_run cmds (snd (model_after cmds lg ak cl pre)) (ack_after cmds lg ak pre) (fst (model_after cmds lg ak cl pre)) rest = true.
+Proof. induction pre as [|e r IH]; intros rest lg ak cl H; [exact H|]. cbn [app model_run] in H. cbn [model_after ack_after].
+  destruct (model_step cmds lg ak cl e) as [cl' ok]. apply andb_true_iff in H. destruct H as [_ H]. cbn [fst]. now apply IH. Qed.
 
 Lemma acked_nth lg a c : acked lg a c = true -> exists j, (j < a)%nat /\ nth_error lg j = Some c.
 Proof. unfold acked. intros H. apply existsb_exists in H. destruct H as [j [Hj He]]. apply in_seq in Hj. apply N.eqb_eq in He.
@@ -831,11 +836,11 @@ Proof. unfold acked. intros H. apply existsb_exists in H. destruct H as [j [Hj H
 
 (* an acknowledged operation is in the log at a position its committer has applied: on every trace the model accepts *)
 Lemma ack_in_log_l k cmds pre c n post : model_eqb k cmds (pre ++ OAck c n :: post) = true ->
-  let cl := fst (model_after cmds [] (init (nn k)) pre) in
+  let cl := fst (model_after cmds [] [] (init (nn k)) pre) in
   exists j, (j < applied (getn (nn n) cl))%nat /\ nth_error (log cl) j = Some (cmd_of cmds c).
 Proof. intros H. cbv zeta. unfold model_eqb in H. apply model_run_app in H. cbn [model_run model_step] in H.
   apply andb_true_iff in H. destruct H as [H _]. apply acked_nth in H. destruct H as [j [Hj Hn]]. exists j. split; [exact Hj|].
-  rewrite (model_after_log cmds pre [] (init (nn k)) eq_refl). now apply map_nth_error. Qed.
+  rewrite (model_after_log cmds pre [] [] (init (nn k)) eq_refl). now apply map_nth_error. Qed.
 
 (* ... hence in the committer's pinset, unless a later operation the committer has applied writes the same cid *)
 Lemma last_write_visible (lg : list logop) a j op x : (j < a)%nat -> nth_error lg j = Some op -> writes x op = true ->
@@ -846,14 +851,14 @@ Proof. intros Hj Hn Hw Hs. rewrite (firstn_split_slice lg (S j) a) by lia. rewri
 Lemma ack_in_pinset_l k cmds pre c n post :
   forallb in_premise cmds = true -> tag_of cmds (pre ++ OAck c n :: post) = 0 -> trace_wf k cmds (pre ++ OAck c n :: post) = true ->
   model_eqb k cmds (pre ++ OAck c n :: post) = true ->
-  let cl := fst (model_after cmds [] (init (nn k)) pre) in
+  let cl := fst (model_after cmds [] [] (init (nn k)) pre) in
   let nd := getn (nn n) cl in
   exists j, (j < applied nd)%nat /\ nth_error (log cl) j = Some (cmd_of cmds c) /\
     forall x, writes x (cmd_of cmds c) = true -> existsb (writes x) (slice (S j) (applied nd) (log cl)) = false ->
               sget x (st nd) = effect (cmd_of cmds c).
 Proof. intros Hp Ht Hw Hm. cbv zeta. destruct (ack_in_log_l k cmds pre c n post Hm) as [j [Hj Hn]]. exists j. split; [exact Hj|]. split; [exact Hn|].
   destruct (tag_of_0 _ _ Ht) as [Hs Hl].
-  destruct (sim_prefix cmds (cmds_ok_of cmds Hp Hs) (nn k) pre (OAck c n :: post) (init (nn k)) [] (repeat snode0 (nn k)) [] [] [])
+  destruct (sim_prefix cmds (cmds_ok_of cmds Hp Hs) (nn k) pre (OAck c n :: post) (init (nn k)) [] [] (repeat snode0 (nn k)) [] [] [])
     as [sn' [pend' [cnt' [late' [[I _] _]]]]]; auto.
   - split; [apply inv_init|apply rec_init].
   - cbn [init nodes]. apply repeat_length.
@@ -967,7 +972,7 @@ Proof. exists 1%nat, shutdown_race_events, 0%nat, 1%nat, (LPin (wpin 1 1)), 1.
 Definition prefix_between (cmds : list logop) (lg : list N) (a : nat) (l : list pin) : Prop :=
   exists m, (a <= m < a + S (length lg - a))%nat /\ l = map snd (replay (firstn m (map (cmd_of cmds) lg))).
 
-Definition event_spec (cmds : list logop) (lg : list N) (sn : list snode) (e : oevent) : Prop :=
+Definition event_spec (cmds : list logop) (lg : list N) (ak : list (N * nat)) (sn : list snode) (e : oevent) : Prop :=
   let ops := map (cmd_of cmds) lg in
   match e with
   | OApply n j => s_applied (sgetn (nn n) sn) = nn j /\ (nn j < length lg)%nat      (* the next entry of the one sequence *)
@@ -979,13 +984,14 @@ Definition event_spec (cmds : list logop) (lg : list N) (sn : list snode) (e : o
   | OOffline n l => l = map snd (match rev (s_labels (sgetn (nn n) sn)) with [] => [] | lb :: _ => replay (firstn lb ops) end)
   | ORecovered _ m0 o => exists l, o = Some l /\ prefix_between cmds lg (nn m0) l
   | OReady n m0 _ o => exists l, o = Some l /\ prefix_between cmds lg (Nat.max (s_applied (sgetn (nn n) sn)) (nn m0)) l
+  | OStopped n => (nget n ak <= lastlbl (s_labels (sgetn (nn n) sn)))%nat            (* acknowledged at n: below the snapshot n leaves on disk *)
   | _ => True
   end.
-Fixpoint trace_spec (cmds : list logop) (lg : list N) (sn : list snode) (es : list oevent) : Prop :=
+Fixpoint trace_spec (cmds : list logop) (lg : list N) (ak : list (N * nat)) (sn : list snode) (es : list oevent) : Prop :=
   match es with
   | [] => True
-  | e :: r => event_spec cmds lg sn e /\
-              trace_spec cmds (fst (fst (spec_step cmds lg sn e))) (snd (fst (spec_step cmds lg sn e))) r
+  | e :: r => event_spec cmds lg ak sn e /\
+              trace_spec cmds (fst (fst (spec_step cmds lg ak sn e))) (ack_step lg ak e) (snd (fst (spec_step cmds lg ak sn e))) r
   end.
 
 Lemma existsb_prefix cmds lg a l :
@@ -994,7 +1000,7 @@ Lemma existsb_prefix cmds lg a l :
 Proof. intros H. apply existsb_exists in H. destruct H as [m [Hm He]]. apply in_seq in Hm. apply pins_eqb_sound in He.
   exists m. split; [lia|now symmetry]. Qed.
 
-Lemma event_sound cmds lg sn e : snd (spec_step cmds lg sn e) = true -> event_spec cmds lg sn e.
+Lemma event_sound cmds lg ak sn e : snd (spec_step cmds lg ak sn e) = true -> event_spec cmds lg ak sn e.
 Proof. destruct e as [c|n j|n j|n okk|n|n src kk lbl|n|c n|n o|n cs|n l|n m0 o|n m0 q o|n]; cbn [spec_step snd event_spec]; cbv zeta; intros H; auto.
   - apply andb_true_iff in H. destruct H as [H1 H2]. apply Nat.eqb_eq in H1. apply Nat.ltb_lt in H2. auto.
   - discriminate.
@@ -1005,25 +1011,96 @@ Proof. destruct e as [c|n j|n j|n okk|n|n src kk lbl|n|c n|n o|n cs|n l|n m0 o|n
   - destruct (rev (s_labels (sgetn (nn n) sn))) as [|lb r]; [destruct l; [reflexivity|discriminate]|].
     apply pins_eqb_sound in H. now symmetry.
   - destruct o as [l|]; [|discriminate]. exists l. split; auto. now apply existsb_prefix.
-  - destruct o as [l|]; [|discriminate]. exists l. split; auto. now apply existsb_prefix. Qed.
+  - destruct o as [l|]; [|discriminate]. exists l. split; auto. now apply existsb_prefix.
+  - now apply Nat.leb_le. Qed.
 
-Lemma spec_run_sound cmds : forall es lg sn, spec_run cmds lg sn es = true -> trace_spec cmds lg sn es.
-Proof. induction es as [|e r IH]; intros lg sn H; [exact I|]. cbn [spec_run] in H. cbn [trace_spec].
-  destruct (spec_step cmds lg sn e) as [[lg' sn'] ok] eqn:E. apply andb_true_iff in H. destruct H as [-> H].
+Lemma spec_run_sound cmds : forall es lg ak sn, spec_run cmds lg ak sn es = true -> trace_spec cmds lg ak sn es.
+Proof. induction es as [|e r IH]; intros lg ak sn H; [exact I|]. cbn [spec_run] in H. cbn [trace_spec].
+  destruct (spec_step cmds lg ak sn e) as [[lg' sn'] ok] eqn:E. apply andb_true_iff in H. destruct H as [-> H].
   split; [apply event_sound; now rewrite E|cbn [fst snd]; now apply IH]. Qed.
 
 Lemma monitor_sound_l k cmds es : forallb in_premise cmds = true -> spec_okb k cmds es = true ->
-  trace_spec cmds [] (repeat snode0 (nn k)) es.
-Proof. intros Hp H. unfold spec_okb in H. rewrite Hp in H. apply andb_true_iff in H. destruct H as [H _]. now apply spec_run_sound. Qed.
+  trace_spec cmds [] [] (repeat snode0 (nn k)) es.
+Proof. intros Hp H. unfold spec_okb in H. rewrite Hp in H. now apply spec_run_sound. Qed.
 
-(* pass 3 read back: when Shutdown has returned on n, 1 + the highest position acknowledged at n is not above the highest
-   label n has persisted *)
-Fixpoint stop_after (s : stopst) (pre : list oevent) : stopst :=
-  match pre with [] => s | e :: r => stop_after (fst (stop_step s e)) r end.
-Lemma stop_run_sound_l : forall pre s n post, stop_run s (pre ++ OStopped n :: post) = true ->
-  (nget n (t_ack (stop_after s pre)) <= nget n (t_lbl (stop_after s pre)))%nat.
-Proof. induction pre as [|e r IH]; intros s n post H.
-  - cbn [app stop_run stop_step stop_after] in *. apply andb_true_iff in H. destruct H as [H _]. now apply Nat.leb_le.
-  - cbn [app stop_run stop_after] in *. destruct (stop_step s e) as [s' ok]. apply andb_true_iff in H. destruct H as [_ H].
-    cbn [fst]. eapply IH; eauto. Qed.
+(* ---------- the clean-stop clause read back ---------- *)
+(* the monitor's state after a prefix of the trace *)
+Fixpoint spec_after (cmds : list logop) (lg : list N) (ak : list (N * nat)) (sn : list snode) (pre : list oevent)
+  : list N * list (N * nat) * list snode :=
+  match pre with
+  | [] => (lg, ak, sn)
+  | e :: r => spec_after cmds (fst (fst (spec_step cmds lg ak sn e))) (ack_step lg ak e) (snd (fst (spec_step cmds lg ak sn e))) r
+  end.
+Lemma trace_spec_app cmds : forall pre rest lg ak sn, trace_spec cmds lg ak sn (pre ++ rest) ->
+  trace_spec cmds (fst (fst (spec_after cmds lg ak sn pre))) (snd (fst (spec_after cmds lg ak sn pre))) (snd (spec_after cmds lg ak sn pre)) rest.
+Proof. induction pre as [|e r IH]; intros rest lg ak sn H; [exact H|]. cbn [app trace_spec] in H. destruct H as [_ H].
+  cbn [spec_after]. now apply IH. Qed.
 
+Lemma spec_step_lg cmds lg ak sn e : fst (fst (spec_step cmds lg ak sn e)) = lg ++ match e with OCommit c => [c] | _ => [] end.
+Proof. destruct e; cbn [spec_step fst]; now rewrite ?app_nil_r. Qed.
+Lemma nget_ack_step lg ak e n : (nget n ak <= nget n (ack_step lg ak e))%nat.
+Proof. destruct e; cbn [ack_step]; auto. destruct (first_pos c lg) as [j|]; auto. unfold nget at 2.
+  destruct (N.eq_dec n n0) as [->|Hne]; [rewrite aget_aput_same; lia|rewrite aget_aput_other by exact Hne; fold (nget n ak); lia]. Qed.
+Lemma spec_after_mono cmds n : forall mid lg ak sn,
+  (exists suf, fst (fst (spec_after cmds lg ak sn mid)) = lg ++ suf) /\
+  (nget n ak <= nget n (snd (fst (spec_after cmds lg ak sn mid))))%nat.
+Proof. induction mid as [|e r IH]; intros lg ak sn; cbn [spec_after fst snd].
+  - split; [exists []; now rewrite app_nil_r|lia].
+  - destruct (IH (fst (fst (spec_step cmds lg ak sn e))) (ack_step lg ak e) (snd (fst (spec_step cmds lg ak sn e)))) as [[suf E] L].
+    split.
+    + rewrite E, spec_step_lg, <- app_assoc. eauto.
+    + pose proof (nget_ack_step lg ak e n). lia. Qed.
+
+Lemma first_pos_nth c : forall lg j, nth_error lg j = Some c -> exists j0, first_pos c lg = Some j0 /\ nth_error lg j0 = Some c.
+Proof. induction lg as [|x r IH]; intros j H; [destruct j; discriminate|]. cbn [first_pos].
+  destruct (N.eqb_spec x c) as [->|Hne]; [exists O; auto|].
+  destruct j as [|j]; [cbn in H; congruence|]. destruct (IH j H) as [j0 [E1 E2]]. rewrite E1. exists (S j0). auto. Qed.
+
+(* for every trace the monitor accepts: an operation acknowledged at n before Shutdown returned on n is in the committed sequence
+   below the label lb of the snapshot n leaves on disk; what OfflineState returns right afterwards is the pinset
+   replay (firstn lb ops), which holds the operation's effect for the cid it writes unless an entry between it and lb writes the
+   cid; and if the process that starts again restores a snapshot labelled lbl >= lb, what it serves before any replay is
+   replay (firstn m ops) for some m >= lbl, which holds the effect unless an entry between the operation and m writes the cid *)
+Lemma stop_sound_l k cmds pre c n mid l post x :
+  forallb in_premise cmds = true ->
+  spec_okb k cmds (pre ++ OAck c n :: mid ++ OStopped n :: OOffline n l :: post) = true ->
+  writes x (cmd_of cmds c) = true ->
+  exists ops lb j, (j < lb)%nat /\ nth_error ops j = Some (cmd_of cmds c) /\
+    l = map snd (replay (firstn lb ops)) /\
+    (existsb (writes x) (slice (S j) lb ops) = false -> sget x (replay (firstn lb ops)) = effect (cmd_of cmds c)) /\
+    (forall src kk lbl o post', post = ORestart n :: ORestore n src kk lbl :: OObs n o :: post' -> (lb <= nn lbl)%nat ->
+       exists m, (j < m)%nat /\ o = Some (map snd (replay (firstn m ops))) /\
+         (existsb (writes x) (slice (S j) m ops) = false -> sget x (replay (firstn m ops)) = effect (cmd_of cmds c))).
+Proof. intros Hp H Hw. apply (monitor_sound_l k cmds _ Hp) in H.
+  apply trace_spec_app in H. destruct (spec_after cmds [] [] (repeat snode0 (nn k)) pre) as [[lg1 ak1] sn1]. cbn [fst snd] in H.
+  cbn [trace_spec] in H. destruct H as [Hack H]. cbn [event_spec] in Hack. destruct Hack as [j1 [_ Hj1]].
+  destruct (first_pos_nth c lg1 j1 Hj1) as [j [Efp Ej]].
+  cbn [spec_step fst snd ack_step] in H. rewrite Efp in H.
+  apply trace_spec_app in H.
+  destruct (spec_after_mono cmds n mid lg1 (aput n (Nat.max (S j) (nget n ak1)) ak1) sn1) as [[suf Elg] Lak].
+  destruct (spec_after cmds lg1 (aput n (Nat.max (S j) (nget n ak1)) ak1) sn1 mid) as [[lg3 ak3] sn3]. cbn [fst snd] in *.
+  assert (Hak : (S j <= nget n ak3)%nat).
+  { unfold nget at 1 in Lak. rewrite aget_aput_same in Lak. lia. }
+  cbn [trace_spec] in H. destruct H as [Hstop H]. cbn [event_spec] in Hstop.
+  cbn [spec_step fst snd ack_step] in H. cbn [trace_spec] in H. destruct H as [Hoff H]. cbn [event_spec] in Hoff. cbv zeta in Hoff.
+  set (ops := map (cmd_of cmds) lg3) in *.
+  set (lb := lastlbl (s_labels (sgetn (nn n) sn3))) in *.
+  assert (Hnth : nth_error ops j = Some (cmd_of cmds c)).
+  { unfold ops. apply map_nth_error. rewrite Elg, nth_error_app1; [exact Ej|]. apply nth_error_Some. congruence. }
+  assert (Hl : l = map snd (replay (firstn lb ops))).
+  { unfold lb, lastlbl in *. destruct (rev (s_labels (sgetn (nn n) sn3))) as [|lb0 r]; [lia|exact Hoff]. }
+  exists ops, lb, j. split; [lia|]. split; [exact Hnth|]. split; [exact Hl|]. split.
+  - intros Hs. eapply last_write_visible; eauto. lia.
+  - intros src kk lbl o post' -> Hlb. cbn [spec_step fst snd ack_step] in H.
+    cbn [trace_spec] in H. destruct H as [_ H]. cbn [spec_step fst snd ack_step] in H.
+    cbn [trace_spec] in H. destruct H as [_ H]. cbn [spec_step fst snd ack_step] in H.
+    cbn [trace_spec] in H. destruct H as [Hobs _]. cbn [event_spec] in Hobs. destruct Hobs as [l' [-> [m [Hm ->]]]].
+    assert (Ea : s_applied (sgetn (nn n) (supd (nn n) (fun s => mksnode (nn lbl) (s_hist s) (s_pending s) (s_labels s))
+                   (supd (nn n) (fun s => mksnode 0 (s_hist s) None (s_labels s)) sn3))) = nn lbl \/ (nn n >= length sn3)%nat).
+    { clear. revert sn3. induction (nn n) as [|i IH]; intros [|y r]; cbn [supd sgetn nth length s_applied]; auto; try (right; lia).
+      destruct (IH r) as [E|E]; [left; exact E|right; cbn [length]; lia]. }
+    exists m. fold ops. destruct Ea as [Ea|Ea].
+    + rewrite Ea in Hm. split; [lia|]. split; [reflexivity|]. intros Hs. eapply last_write_visible; eauto. lia.
+    + exfalso. assert (E0 : sgetn (nn n) sn3 = snode0) by (unfold sgetn; apply nth_overflow; lia).
+      unfold lb in Hstop. rewrite E0 in Hstop. cbn in Hstop. lia.
+Qed.
